@@ -1,6 +1,8 @@
 // racer — failing-input search for C07: stresses one exported method of an in-memory structure
 // against concurrent updates on a shared instance under the Go race detector.
 // Usage: racer Type.Method   (built with -race; GORACE=halt_on_error=1 makes a race exit 66)
+//        racer -atomic Type.Method   looks for an outcome no sequential ordering of the calls can
+//        produce (lost or doubled update) and exits 67 with a description when it finds one.
 package main
 
 import (
@@ -18,6 +20,10 @@ func main() {
 		os.Exit(2)
 	}
 	target := os.Args[1]
+	if target == "-atomic" && len(os.Args) > 2 {
+		atomic(os.Args[2])
+		return
+	}
 	var upd, call func(i int)
 	switch {
 	case has(target, "BloomFilter."):
@@ -121,3 +127,139 @@ func main() {
 }
 
 func has(s, prefix string) bool { return len(s) >= len(prefix) && s[:len(prefix)] == prefix }
+
+// parallel runs g goroutines, each calling f(goroutine, i) for i < n, started together.
+func parallel(g, n int, f func(w, i int)) {
+	var wg sync.WaitGroup
+	start := make(chan struct{})
+	for w := 0; w < g; w++ {
+		wg.Add(1)
+		go func(w int) {
+			defer wg.Done()
+			<-start
+			for i := 0; i < n; i++ {
+				f(w, i)
+			}
+		}(w)
+	}
+	close(start)
+	wg.Wait()
+}
+
+func fail(format string, a ...interface{}) {
+	fmt.Printf("NOT-SERIALISABLE: "+format+"\n", a...)
+	os.Exit(67)
+}
+
+// atomic: outcome checks against "some sequential ordering of the calls" (C07), per update method.
+func atomic(target string) {
+	const G = 8
+	switch target {
+	case "TopK.Insert":
+		// every goroutine inserts the same key; in any sequential order the heap entry of that key
+		// ends with the total number of inserts (wide sketch: no collisions)
+		for trial := 0; trial < 400; trial++ {
+			t := gx.NewTopK(3, 0.001, 0.999)
+			t.Insert([]byte("a"), 1000)
+			t.Insert([]byte("b"), 2000)
+			parallel(G, 40, func(w, i int) { t.Insert([]byte("hot"), 1) })
+			got := uint64(0)
+			for _, e := range t.Values() {
+				el, c := gx.VerifTopKElement(e)
+				if el == "hot" {
+					got = c
+				}
+			}
+			if got != G*40 {
+				fail("TopK: %d goroutines x 40 Insert(hot,1): Values reports hot=%d, every sequential order gives %d (trial %d)", G, got, G*40, trial)
+			}
+		}
+	case "CuckooFilter.Remove":
+		for trial := 0; trial < 30000; trial++ {
+			f := gx.NewCuckooFilter(16, 4, 4)
+			f.Insert([]byte("x"), false)
+			var mu sync.Mutex
+			trues := 0
+			parallel(G, 1, func(w, i int) {
+				if f.Remove([]byte("x")) {
+					mu.Lock()
+					trues++
+					mu.Unlock()
+				}
+			})
+			if trues != 1 || f.Length() != 0 {
+				fail("Cuckoo: x inserted once, %d concurrent Remove(x): %d returned true, Length=%d (sequentially: 1 and 0) (trial %d)", G, trues, f.Length(), trial)
+			}
+		}
+	case "CuckooFilter.Insert":
+		for trial := 0; trial < 300; trial++ {
+			f := gx.NewCuckooFilter(64, 4, 6)
+			var mu sync.Mutex
+			ok := 0
+			parallel(G, 20, func(w, i int) {
+				defer func() { recover() }()
+				if f.Insert([]byte(fmt.Sprintf("k%d-%d", w, i)), false) {
+					mu.Lock()
+					ok++
+					mu.Unlock()
+				}
+			})
+			if int(f.Length()) != ok {
+				fail("Cuckoo: %d inserts returned true, Length=%d (trial %d)", ok, f.Length(), trial)
+			}
+		}
+	case "CountMinSketch.Update", "CountMinSketch.UpdateOnce", "CountMinSketch.UpdateString":
+		for trial := 0; trial < 300; trial++ {
+			s, _ := gx.NewCountMinSketch(3, 64)
+			parallel(G, 200, func(w, i int) {
+				switch target {
+				case "CountMinSketch.UpdateOnce":
+					s.UpdateOnce([]byte("x"))
+				case "CountMinSketch.UpdateString":
+					s.UpdateString("x", 1)
+				default:
+					s.Update([]byte("x"), 1)
+				}
+			})
+			if c := s.Count([]byte("x")); c != G*200 {
+				fail("CMS: %d goroutines x 200 updates of x by 1: Count(x)=%d, sequentially %d (trial %d)", G, c, G*200, trial)
+			}
+		}
+	case "HyperLogLog.Update":
+		for trial := 0; trial < 200; trial++ {
+			h, _ := gx.NewHyperLogLog(64)
+			ref, _ := gx.NewHyperLogLog(64)
+			parallel(G, 50, func(w, i int) { h.Update([]byte(fmt.Sprintf("k%d-%d", w, i))) })
+			for w := 0; w < G; w++ {
+				for i := 0; i < 50; i++ {
+					ref.Update([]byte(fmt.Sprintf("k%d-%d", w, i)))
+				}
+			}
+			a, _ := h.Export()
+			b, _ := ref.Export()
+			if !bytes.Equal(a, b) {
+				fail("HLL: concurrent updates leave registers different from the sequential replay (trial %d)", trial)
+			}
+		}
+	case "BloomFilter.Insert", "BloomFilter.InsertString":
+		for trial := 0; trial < 200; trial++ {
+			f, _ := gx.NewMemBloomFilterWithParameters(500, 0.01)
+			ref, _ := gx.NewMemBloomFilterWithParameters(500, 0.01)
+			parallel(G, 50, func(w, i int) { f.Insert([]byte(fmt.Sprintf("k%d-%d", w, i))) })
+			for w := 0; w < G; w++ {
+				for i := 0; i < 50; i++ {
+					ref.Insert([]byte(fmt.Sprintf("k%d-%d", w, i)))
+				}
+			}
+			a, _ := f.Export()
+			b, _ := ref.Export()
+			if !bytes.Equal(a, b) {
+				fail("Bloom: concurrent inserts leave a bitset different from the sequential replay (trial %d)", trial)
+			}
+		}
+	default:
+		fmt.Println("no atomicity probe for", target)
+		os.Exit(3)
+	}
+	fmt.Println("no non-serialisable outcome observed for", target)
+}
